@@ -44,7 +44,7 @@ func (x *runCtx) runDependent(codec string) {
 			}
 			sps := sps
 			var msgs []sei.SEIMessage
-			x.call("avc.ParseSEINalu(sps)", n, func() { msgs, _ = avc.ParseSEINalu(in, sps) })
+			x.call("avc.ParseSEINalu(sps)", n, func() { msgs = usable(avc.ParseSEINalu(in, sps)) })
 			x.useMsgs("avc.ParseSEINalu", n, msgs)
 		}
 		for _, scheme := range []string{"cenc", "cbcs"} {
@@ -77,7 +77,7 @@ func (x *runCtx) runDependent(codec string) {
 		}
 		sps := sps
 		var msgs []sei.SEIMessage
-		x.call("hevc.ParseSEINalu(sps)", n, func() { msgs, _ = hevc.ParseSEINalu(in, sps) })
+		x.call("hevc.ParseSEINalu(sps)", n, func() { msgs = usable(hevc.ParseSEINalu(in, sps)) })
 		x.useMsgs("hevc.ParseSEINalu", n, msgs)
 	}
 	for _, scheme := range []string{"cenc", "cbcs"} {
